@@ -693,13 +693,14 @@ def rule_R5(ctx, f):
     # pair construction closure: name <- key, value <- value
     npair = 0
     cands = f.closures_of(cl)
-    if not [c2 for c2 in cands if c2.calls_to(["LabelPair::set_name"])]:
+    from pvrules.rules import field_sets
+    if not [c2 for c2 in cands if field_sets(c2, "LabelPair", "name", ["LabelPair::set_name"])]:
         # the pairs may be built once outside the per-family closure (in gather itself or in a helper of the registry), or by a `for` loop in this closure
         cands = [bd for bd in f.bodies.values() if "::registry::" in bd.path and "{closure" in bd.path and bd.path != cl.path] + [cl, b]
     T_ = ["ToString::to_string", "Clone::clone", "ToOwned::to_owned", "String::clone", "str::to_owned"]
     for c2 in cands:
-        sn2 = [c for c in c2.calls_to(["LabelPair::set_name"]) if peel(c.args[0]) != fam]
-        sv2 = c2.calls_to(["LabelPair::set_value"])
+        sn2 = [c for c in field_sets(c2, "LabelPair", "name", ["LabelPair::set_name"]) if peel(c.args[0]) != fam]
+        sv2 = field_sets(c2, "LabelPair", "value", ["LabelPair::set_value"])
         if not sn2 and not sv2:
             continue
         npair += 1
